@@ -21,8 +21,8 @@ ASSUMPTIONS = [
     'partition_iterator: partition_size >= 1; group_into_tensor_product_basis_sets: coefficients are 0 or dyadic with |c| >= 1e-8 (exact regime)',
 ]
 OPEN_STATEMENTS = [
-    'binned / symmetric variants: the four-label coverage and the absence of exceptions are proved (pws_binned_covers, pws_symmetric_covers); that every yield of the binned / symmetric variants is a partial matching (first conjunct of the Spec predicate quadsCovered) is open as a theorem (proved for pair_within_simultaneously itself: pws_spec) and checked by the Spec oracle and the brute force on random bin sizes (1..16 bins) and all (num_fermions <= 9/14, num_symmetries <= 3).',
-    'tpb_groups_spec is proved under the hypothesis PermsCover (every shuffle lists each current basis at least once — true for genuine permutations); that numpy.random.RandomState.shuffle produces a permutation is part of the trusted base (the recorded shuffles are checked to reproduce the unpatched call).',
+    'Every clause of the property is a theorem about the Model; outside the theorems: tpb_groups_spec is proved under the hypothesis PermsCover (every shuffle lists each current basis at least once — true for genuine permutations); that numpy.random.RandomState.shuffle produces a permutation is part of the trusted base (the recorded shuffles are checked to reproduce the unpatched call).',
+    'binary_partition_iterator / partition_iterator with an explicit num_iterations argument (not the default) are covered by correspondence only (the theorems are about the default, which is what the property states).',
 ]
 
 
